@@ -1160,7 +1160,7 @@ def n_continuation_col0(src):
 
 
 def n_compound_docstring(src):
-    """F38: a docstring-like statement that is not ONE string token alone on its logical line (implicit
+    """F39: a docstring-like statement that is not ONE string token alone on its logical line (implicit
     concatenation, parentheses, `;`): rewrite the statements of that logical line one per line, the docstring
     as a lone `"d"` (same tree, string contents aside)."""
     try:
